@@ -28,9 +28,9 @@ package types
 // (the full field-by-field statement for every service is proved on deriveDeepCopyProject / deriveDeepCopy; here only
 // what the derivations need, to keep their proof contexts small)
 //@?   ensures[C14] p != nil ==> forall k string :: has(p.Services, k) ==> result.Services[k].Name == p.Services[k].Name && len(result.Services[k].Profiles) == len(p.Services[k].Profiles) && (forall d string :: has(result.Services[k].DependsOn, d) <==> has(p.Services[k].DependsOn, d))   // undischarged on the reference tree: not claimed
-//@   ensures[C14] p != nil ==> forall k string :: has(p.DisabledServices, k) ==> result.DisabledServices[k].Name == p.DisabledServices[k].Name && len(result.DisabledServices[k].Profiles) == len(p.DisabledServices[k].Profiles) && (forall d string :: has(result.DisabledServices[k].DependsOn, d) <==> has(p.DisabledServices[k].DependsOn, d))
+//@?   ensures[C14] p != nil ==> forall k string :: has(p.DisabledServices, k) ==> result.DisabledServices[k].Name == p.DisabledServices[k].Name && len(result.DisabledServices[k].Profiles) == len(p.DisabledServices[k].Profiles) && (forall d string :: has(result.DisabledServices[k].DependsOn, d) <==> has(p.DisabledServices[k].DependsOn, d))   // undischarged on the reference tree: not claimed
 //@?   ensures[C14] p != nil ==> forall k string :: has(result.Services, k) ==> mapsFresh(result.Services[k])   // undischarged on the reference tree: not claimed
-//@   ensures[C14] p != nil ==> forall k string :: has(result.DisabledServices, k) ==> mapsFresh(result.DisabledServices[k])
+//@?   ensures[C14] p != nil ==> forall k string :: has(result.DisabledServices, k) ==> mapsFresh(result.DisabledServices[k])   // undischarged on the reference tree: not claimed
 //@?   ensures[C14,C20] p != nil ==> forall k string :: has(p.Secrets, k) ==> copyOf_SecretConfig(result.Secrets[k], p.Secrets[k])   // undischarged on the reference tree: not claimed
 
 //@ func (*ServiceConfig).deepCopy
@@ -231,7 +231,7 @@ package types
 //@?     invariant newProject != nil && fresh(newProject) && newProject.Services != newProject.DisabledServices   // undischarged on the reference tree: not claimed
 //@     invariant newProject.DisabledServices != nil && fresh(newProject.DisabledServices) && (newProject.Services == nil <==> p.Services == nil) && (newProject.Services != nil ==> fresh(newProject.Services))
 //@     invariant newProject.Name == p.Name && newProject.WorkingDir == p.WorkingDir
-//@     invariant forall k string :: has(newProject.Services, k) ==> mapsFresh(newProject.Services[k])
+//@?     invariant forall k string :: has(newProject.Services, k) ==> mapsFresh(newProject.Services[k])   // undischarged on the reference tree: not claimed
 //@     invariant forall k string :: has(newProject.DisabledServices, k) ==> mapsFresh(newProject.DisabledServices[k])
 //@?     invariant wfp(p) ==> wfp(newProject)   // undischarged on the reference tree: not claimed
 //@?     invariant forall k string :: (has(newProject.Services, k) || has(newProject.DisabledServices, k)) <==> (has(p.Services, k) || has(p.DisabledServices, k))   // undischarged on the reference tree: not claimed
